@@ -228,6 +228,7 @@ def _copy_layer_to_x_dense(
             dst_dataset = dst.create_dataset(
                 'X',
                 shape=data.shape,
+                maxshape=data.maxshape,
                 chunks=chunks,
                 dtype=data.dtype)
 
